@@ -109,7 +109,7 @@ Section alloc.
     assert (IHa : forall cx, mono_a (eval_a e M F f cx)) by (intros c; apply IH).
     split.
     - intros p src st v st' H. rewrite eval_v_S in H. destruct p as [| |al q|m|c args fl|t a|ini tp a|el a|ini t cases dflt].
-      + fin H.
+      + destruct (plain src); [fin H|discriminate].
       + fin H.
       + destruct (eval_v e M F f cx q src st) as [[r st1]| | | |] eqn:E; cbn [obind] in H; try discriminate.
         apply IHv in E. destruct al; fin H.
